@@ -28,7 +28,7 @@ from mirsym import (Executor, State, ValRef, PlaceRef, Opaque, EnumV, BoxV, BoxP
                     bv, zand, zor, znot, zite)
 import mirmodels
 
-EXPR_ANALYZE = r'<(?:common::)?Expression as (?:mutability::)?Analyzable>::analyze$'
+EXPR_ANALYZE = r'<(?:common::)?Expression as (?:\w+::)?Analyzable>::analyze$'
 
 
 def native(lines):
@@ -458,7 +458,7 @@ def run(tier):
     return C
 
 
-STMT_ANALYZE = r'<(?:common::)?Statement as (?:mutability::)?Analyzable>::analyze$'
+STMT_ANALYZE = r'<(?:common::)?Statement as (?:\w+::)?Analyzable>::analyze$'
 
 
 def leftovers(v, acc=None):
